@@ -52,6 +52,39 @@ func init() {
 		return c13RunOne(a)
 	}
 	generators["c13"] = genC13
+	// c13reuse <n1> <n2> <k>: Loop OBJECTS reused across polygons.  A polygon is built from a shell (n1 vertices) with a hole
+	// (n2 vertices); then the HOLE's *Loop object (k=1) or the SHELL's (k=0) is used as the only loop of a second polygon.  The
+	// second polygon must answer exactly like one built from a fresh loop with the same vertices ("same"), whatever the loop
+	// object was part of before (seeded changes C07_4 / C18_4: depth not reset).
+	replayers["c13reuse"] = func(a []string) []string {
+		n1, n2, k := pI(a[0]), pI(a[1]), pI(a[2])
+		ctr := c13LL(20, -60)
+		shell := s2.RegularLoop(ctr, s1.Angle(12)*s1.Degree, n1)
+		hole := s2.RegularLoop(ctr, s1.Angle(4)*s1.Degree, n2)
+		p1 := s2.PolygonFromLoops([]*s2.Loop{shell, hole})
+		_ = p1.ContainsPoint(ctr) // use it once (may build indexes)
+		obj := shell
+		if k == 1 {
+			obj = hole
+		}
+		reused := s2.PolygonFromLoops([]*s2.Loop{obj})
+		fresh := s2.PolygonFromLoops([]*s2.Loop{s2.LoopFromPoints(append([]s2.Point(nil), obj.Vertices()...))})
+		desc := func(p *s2.Polygon) string {
+			var b strings.Builder
+			fmt.Fprintf(&b, "%d:%v:%v:%016x:", p.NumLoops(), p.Loop(0).IsHole(), p.Loop(0).Sign(), math.Float64bits(p.Area()))
+			for _, d := range [][2]float64{{20, -60}, {20, -53}, {20, -45}, {-20, 120}, {89, 0}} {
+				b.WriteString(bs(p.ContainsPoint(c13LL(d[0], d[1]))))
+			}
+			rb := p.RectBound()
+			fmt.Fprintf(&b, ":%v:%016x", rb.IsEmpty(), math.Float64bits(rb.Lat.Lo))
+			return b.String()
+		}
+		dr, df := desc(reused), desc(fresh)
+		if dr == df {
+			return []string{"same"}
+		}
+		return []string{"differs", dr, df}
+	}
 }
 
 // ---------------------------------------------------------------------------
@@ -1409,6 +1442,10 @@ func genC13(g *G) {
 	P0 := c13AddOp("P0")
 	def := c13DefaultEQ
 
+	// Loop objects reused across polygons (answers must not depend on what the object was part of before)
+	for _, t := range [][3]int{{8, 6, 1}, {8, 6, 0}, {40, 36, 1}, {64, 5, 1}, {3, 3, 1}} {
+		g.emit("c13reuse", is(t[0]), is(t[1]), is(t[2]))
+	}
 	// Part 3 (first): the shortest expected failures and two controls.
 	c.run(8, "normal", 8, []string{L0, "build", L1, "build"})
 	c.run(8, "normal", 8, []string{L0, "build", L1, "query"})
